@@ -77,6 +77,7 @@ func (k Keeper) AddAllowedBidders(ctx context.Context, auctionId uint64, allowed
 			return err
 		}
 		ab.AuctionId = auctionId
+		ab.Bidder = bidder.String()
 		if err := k.AllowedBidder.Set(ctx, collections.Join(auctionId, bidder), ab); err != nil {
 			return err
 		}
